@@ -135,16 +135,16 @@ theorem Inv.place {vr m0 rsv m p} (I : Inv vr m0 rsv m p) (hn : (keys vr).Nodup)
 def resvTerm (r : Nat) (amt : Int) (at_ : Option Chip) (c : Chip) (i : Nat) : Int :=
   if r = i ∧ (at_ = none ∨ at_ = some c) then amt else 0
 
-inductive ExcRel (r : Nat) (amt : Int) : List (Chip × Res) → List (Chip × Res) → Prop where
-  | nil : ExcRel r amt [] []
+inductive ExcRel (m : Machine) (r : Nat) (amt : Int) : List (Chip × Res) → List (Chip × Res) → Prop where
+  | nil : ExcRel m r amt [] []
   | cons {a b : Chip × Res} {l l' : List (Chip × Res)} :
-      (b.1 = a.1 ∧ decr a.2 r amt = some b.2 ∧ over b.2 = false) → ExcRel r amt l l' →
-      ExcRel r amt (a :: l) (b :: l')
+      (b.1 = a.1 ∧ decr a.2 r amt = some b.2 ∧ (m.ok b.1 = true → over b.2 = false)) → ExcRel m r amt l l' →
+      ExcRel m r amt (a :: l) (b :: l')
 
 theorem reserveExc_spec (m : Machine) (r : Nat) (amt : Int) :
     ∀ (rest done out : List (Chip × Res)), reserveExc m r amt done rest = .ok out →
       ∃ rest', out = done ++ rest' ∧
-        ExcRel r amt rest rest' := by
+        ExcRel m r amt rest rest' := by
   intro rest
   induction rest with
   | nil => intro done out h; simp [reserveExc] at h; exact ⟨[], by simp [h], ExcRel.nil⟩
@@ -157,16 +157,17 @@ theorem reserveExc_spec (m : Machine) (r : Nat) (amt : Int) :
     · rename_i res' hd
       split at h
       · simp at h
-      · split at h
-        · simp at h
-        · rename_i ho
-          obtain ⟨rest', e, f⟩ := ih _ _ h
-          refine ⟨(c, res') :: rest', by simp [e], ExcRel.cons ⟨rfl, hd, by simpa using ho⟩ f⟩
+      · rename_i ho
+        obtain ⟨rest', e, f⟩ := ih _ _ h
+        refine ⟨(c, res') :: rest', by simp [e], ExcRel.cons ⟨rfl, hd, fun hk => ?_⟩ f⟩
+        simp only at hk
+        simpa [hk] using ho
 
-theorem aget_forall2 {r : Nat} {amt : Int} {l l' : List (Chip × Res)}
-    (f : ExcRel r amt l l') (c : Chip) :
+theorem aget_forall2 {m : Machine} {r : Nat} {amt : Int} {l l' : List (Chip × Res)}
+    (f : ExcRel m r amt l l') (c : Chip) :
     (aget l c = none ∧ aget l' c = none) ∨
-    (∃ e e', aget l c = some e ∧ aget l' c = some e' ∧ decr e r amt = some e' ∧ over e' = false) := by
+    (∃ e e', aget l c = some e ∧ aget l' c = some e' ∧ decr e r amt = some e' ∧
+      (m.ok c = true → over e' = false)) := by
   induction f with
   | nil => left; simp [aget]
   | @cons a b l1 l2 hab _ ih =>
@@ -175,7 +176,7 @@ theorem aget_forall2 {r : Nat} {amt : Int} {l l' : List (Chip × Res)}
     obtain ⟨h1, h2, h3⟩ := hab
     simp at h1 h2 h3; subst h1
     by_cases hk : kb = c
-    · right; exact ⟨va, vb, by simp [aget, hk], by simp [aget, hk], h2, h3⟩
+    · subst hk; right; exact ⟨va, vb, by simp [aget], by simp [aget], h2, h3⟩
     · simpa [aget, hk] using ih
 
 theorem Inv.reserve {vr m0 rsv m p} (I : Inv vr m0 rsv m p) {r : Nat} {amt : Int} {at_ : Option Chip}
@@ -198,11 +199,11 @@ theorem Inv.reserve {vr m0 rsv m p} (I : Inv vr m0 rsv m p) {r : Nat} {amt : Int
           obtain ⟨rest', e, f⟩ := reserveExc_spec m r amt _ _ _ hexc
           simp at e; subst e
           -- capacity of every chip is decremented
-          have key : ∀ c, ∃ e', decr (cap m c) r amt = some e' ∧ over e' = false ∧
+          have key : ∀ c, ∃ e', decr (cap m c) r amt = some e' ∧ (m.ok c = true → over e' = false) ∧
               cap { m with res := res', exc := exc' } c = e' := by
             intro c
             rcases aget_forall2 f c with ⟨h1, h2⟩ | ⟨e, e', h1, h2, h3, h4⟩
-            · exact ⟨res', by simp [cap, h1, hres], by simpa using hover, by simp [cap, h2]⟩
+            · exact ⟨res', by simp [cap, h1, hres], fun _ => by simpa using hover, by simp [cap, h2]⟩
             · exact ⟨e', by simp [cap, h1, h3], h4, by simp [cap, h2]⟩
           refine ⟨I.w, I.h, I.dead, ?_, ?_, ?_, I.pok, I.pvr, I.pnodup⟩
           · intro c hc
@@ -210,7 +211,7 @@ theorem Inv.reserve {vr m0 rsv m p} (I : Inv vr m0 rsv m p) {r : Nat} {amt : Int
             rw [h3, (decr_some h1).1]; exact I.len c hc
           · intro c hc i
             obtain ⟨e', h1, h2, h3⟩ := key c
-            rw [h3]; exact dem_nonneg_of_over h2 i
+            rw [h3]; exact dem_nonneg_of_over (h2 (by rw [I.ok_eq]; exact hc)) i
           · intro c hc i hi
             obtain ⟨e', h1, h2, h3⟩ := key c
             have hb := I.bound c hc i hi
